@@ -297,24 +297,24 @@ func (r *renderer) expr(e *Expr, parent, depth int) {
 		r.indent(depth)
 		r.b.WriteString("EOT")
 	case "bin":
-		r.expr(e.A[0], n.ID, depth)
+		r.operand(e.A[0], n.ID, depth)
 		r.b.WriteString(" " + e.S + " ")
-		r.expr(e.A[1], n.ID, depth)
+		r.operand(e.A[1], n.ID, depth)
 	case "un":
 		r.b.WriteString(e.S)
-		r.expr(e.A[0], n.ID, depth)
+		r.operand(e.A[0], n.ID, depth)
 	case "cond":
-		r.expr(e.A[0], n.ID, depth)
+		r.operand(e.A[0], n.ID, depth)
 		r.b.WriteString(" ? ")
-		r.expr(e.A[1], n.ID, depth)
+		r.operand(e.A[1], n.ID, depth)
 		r.b.WriteString(" : ")
-		r.expr(e.A[2], n.ID, depth)
+		r.operand(e.A[2], n.ID, depth)
 	case "paren":
 		r.b.WriteString("(")
 		r.expr(e.A[0], n.ID, depth)
 		r.b.WriteString(")")
 	case "index":
-		r.expr(e.A[0], n.ID, depth)
+		r.operand(e.A[0], n.ID, depth)
 		r.b.WriteString("[")
 		r.expr(e.A[1], n.ID, depth)
 		r.b.WriteString("]")
@@ -418,6 +418,19 @@ func (r *renderer) expr(e *Expr, parent, depth int) {
 	default:
 		panic(fmt.Sprintf("world: bad expr kind %q", e.K))
 	}
+}
+
+// operand renders a sub-expression, parenthesised when its own operator would
+// otherwise bind differently in the surrounding expression (the expression
+// tree, not operator precedence, is the ground truth).
+func (r *renderer) operand(e *Expr, parent, depth int) {
+	if e != nil && (e.K == "bin" || e.K == "un" || e.K == "cond" || e.K == "for" && false) {
+		r.b.WriteString("(")
+		r.expr(e, parent, depth)
+		r.b.WriteString(")")
+		return
+	}
+	r.expr(e, parent, depth)
 }
 
 func (r *renderer) key(k *Expr, parent, depth int) {
